@@ -60,9 +60,8 @@ thorough = {
 }
 for n, c in thorough.items():
   cfg("EX_%s.cfg" % n, c, "export")
-sim = dict(Areas="AllAreas", Wide4=E, Sweep4="MCSim4", Base4="MCSim4", Net4="MCSim4", Flip4="MCMicroFlip",
-           Cidr4B="MCMicro4", Sweep6="MCSim6", Base6="MCSim6", Net6="MCMicro6", Flip6="MCMicroFlip",
-           Cidr6B="MCMicro6", Rich6="MCSim6", Macs="MCMicroMac", RichMacs="MCMicroMac", Dpids="MCMicroDpid",
-           DpidsRT="MCMicroDpid", Remake="TRUE", D=12)
+# long random behaviours: micro alphabets (TLC's simulator generates every candidate
+# successor of the action it picks, so the alphabets decide the cost of a step)
+sim = dict(micro, Rich6=E, RichMacs=E, Cidr4B=E, Cidr6B=E, Remake="TRUE", D=7)
 cfg("EX_sim.cfg", sim, "sim")
 cfg("Trace.cfg", dict(micro, Remake="TRUE", D=0), "trace")
